@@ -1,9 +1,13 @@
 """C01 / C14 -- wire codec: byte-exact correspondence of the encoder model with DNSOutgoing.packets(),
-and the round-trip / size / accounting predicates evaluated on the implementation's packets with the
-independent strict decoder (Lean `Wire.Strict`) and the library's own DNSIncoming."""
+and the round-trip / size / accounting predicates evaluated on the implementation's packets with two
+independent strict decoders (Lean `Wire.Strict` and the Python `py_decode` below) and the library's own
+DNSIncoming; C14 also follows the datagrams through `Zeroconf.async_send` (the size guard there)."""
 from __future__ import annotations
 
 import json
+import logging
+import struct
+from types import SimpleNamespace
 
 from . import common as C
 from . import textlayer as T
@@ -13,18 +17,31 @@ TRUSTED = ["text layer of names: modelled (Zc.NameText: strip one trailing dot, 
            "proved against the label-list encoder model (C01_names_table_text_keys, C01_roundtrip_text); the driver is fed the *text* of every name "
            "(`=<hex of its UTF-8>`) and splits/encodes itself; CPython's str.split / str.encode / bytes.decode are the reference it is compared with",
            "lone surrogates in names (UnicodeEncodeError) are not text and are not generated",
-           "remaining-TTL arithmetic on integer milliseconds only"]
+           "remaining-TTL arithmetic on integer milliseconds only",
+           "Zeroconf.async_send is driven with a recording transport on an object made by Zeroconf.__new__ (no sockets, no loop): only the loop over "
+           "out.packets() and its size guard are exercised"]
 ASSUMPTIONS = ["names are handed to the builder as str; what must come back is the same str (with its trailing dot) from the library's decoder and from "
-               "the strict decoder's labels read as _read_name reads them (model: textOfLabels), and the same labels from the strict decoder"]
+               "the strict decoder's labels read as _read_name reads them (model: textOfLabels), and the same labels from the strict decoder",
+               "a remaining TTL is asked for at a time not before the record's creation (Props/C01 NowNotBeforeCreated); otherwise it may exceed 2^32-1 "
+               "(struct.error): outside the quantifier, compared byte-exactly only"]
+
+# staged features (switched on by the commits that bring the model side / the known-findings entry)
+SEND_PATH = True     # C14: follow the datagrams through Zeroconf.async_send (needs the driver command `sendlens`)
+RETRY_CHECK = True   # C01: packets() again on a builder that rejected the message (finding D32)
 
 EXC = {"NamePartTooLongException": "NamePartTooLongException", "IndexError": "IndexError", "error": "struct.error", "ValueError": "ValueError"}
 
 
-def impl_packets(gm):
+def impl_packets(gm, keep=None):
+    """-> (kind, value).  `keep` (a dict) receives the library object under "out" (for the send path / the second call)"""
     try:
         out = gm.to_lib()
-        pk = out.packets()
-        again = out.packets()
+        if keep is not None:
+            keep["out"] = out
+        # a *copy*: packets() memoises and hands the very same list object back on the second call, so comparing the
+        # two return values compares a list with itself
+        pk = list(out.packets())
+        again = list(out.packets())
         if again != pk:
             # "none duplicated": a message sent twice must not grow
             return ("twice", [len(p) for p in again][:50])
@@ -35,6 +52,40 @@ def impl_packets(gm):
     except Exception as ex:  # noqa: BLE001  every exception class is an observation
         n = type(ex).__name__
         return ("err", EXC.get(n, n))
+
+
+def impl_again(out):
+    """packets() once more on a builder whose first call raised: -> ("err", name) | ("ok", [datagrams])"""
+    try:
+        return ("ok", list(out.packets()))
+    except Exception as ex:  # noqa: BLE001
+        n = type(ex).__name__
+        return ("err", EXC.get(n, n))
+
+
+class _Recorder:
+    def __init__(self):
+        self.sent = []
+
+    def sendto(self, data, addr=None):
+        self.sent.append(bytes(data))
+
+
+def impl_send(out):
+    """the datagrams that leave `Zeroconf.async_send(out)` (recording transport, no sockets): -> ("ok", [bytes]) | ("err", name)"""
+    try:
+        from zeroconf import Zeroconf
+        from zeroconf._transport import _WrappedTransport
+
+        logging.getLogger("zeroconf").setLevel(logging.CRITICAL)
+        rec = _Recorder()
+        zc = Zeroconf.__new__(Zeroconf)  # no sockets, no loop: only what async_send() reads
+        zc.done = False
+        zc.engine = SimpleNamespace(senders=[_WrappedTransport(rec, False, None, 7, ("127.0.0.1", 5353))])
+        zc.async_send(out)
+        return ("ok", rec.sent)
+    except Exception as ex:  # noqa: BLE001
+        return ("err", type(ex).__name__)
 
 
 def lib_decode(pkt):
@@ -53,6 +104,142 @@ def lib_decode(pkt):
         return ("exc", type(ex).__name__)
 
 
+# ------------------------------------------------------------------------------------------
+# a second independent strict decoder (RFC 1035 §3.1, §4.1; RFC 2782; RFC 4034 §4.1.2), written on bytes, sharing nothing
+# with the library or the Lean model.  Same strictness as `Wire.Strict` (exact counts, no trailing octets, labels 1..63,
+# pointers only backwards to before the current name segment and not into the header, <= 128 pointers, rdlength exact per
+# type) EXCEPT that it applies no rule on the total length of a name: it reports the longest name instead, so that a
+# datagram carrying a name of more than 255 octets (finding D21) is still decoded and judged on everything else.
+
+
+class PyReject(Exception):
+    pass
+
+
+def _py_name(b, off):
+    labels = []
+    cur, seg, hops, ret = off, off, 0, None
+    n = len(b)
+    while True:
+        if cur >= n:
+            raise PyReject("name runs off the datagram")
+        c = b[cur]
+        if c == 0:
+            return tuple(labels), (cur + 1 if ret is None else ret)
+        if c < 0x40:
+            if cur + 1 + c > n:
+                raise PyReject("label runs off the datagram")
+            labels.append(bytes(b[cur + 1:cur + 1 + c]))
+            cur += 1 + c
+        elif c < 0xC0:
+            raise PyReject("label length byte %#x" % c)
+        else:
+            if cur + 1 >= n:
+                raise PyReject("truncated pointer")
+            tgt = ((c & 0x3F) << 8) | b[cur + 1]
+            if tgt < 12 or tgt >= seg:
+                raise PyReject("pointer at %d to %d does not point backwards to a prior name" % (cur, tgt))
+            hops += 1
+            if hops > 128:
+                raise PyReject("more than 128 pointers")
+            if ret is None:
+                ret = cur + 2
+            cur = seg = tgt
+
+
+def py_decode(b):
+    """-> (id, flags, [q], [an], [au], [ad], longest name in wire octets), entries as the canonical tuples of
+    `wiregen.parse_wmsg`; raises PyReject"""
+    longest = [0]
+
+    def name(off):
+        ls, e = _py_name(b, off)
+        longest[0] = max(longest[0], sum(len(l) + 1 for l in ls) + 1)
+        return ls, e
+
+    n = len(b)
+    if n < 12:
+        raise PyReject("short header")
+    id_, flags, nq, nan, nau, nad = struct.unpack(">HHHHHH", b[:12])
+    off = 12
+    qs = []
+    for _ in range(nq):
+        nm, off = name(off)
+        if off + 4 > n:
+            raise PyReject("short question")
+        t, c = struct.unpack(">HH", b[off:off + 4])
+        off += 4
+        qs.append(("q", nm, t, c))
+    secs = []
+    for cnt in (nan, nau, nad):
+        s = []
+        for _ in range(cnt):
+            nm, off = name(off)
+            if off + 10 > n:
+                raise PyReject("short record")
+            t, c, ttl, rl = struct.unpack(">HHIH", b[off:off + 10])
+            off += 10
+            end = off + rl
+            if end > n:
+                raise PyReject("rdata runs off the datagram")
+            if t in (1, 28):
+                if rl != (4 if t == 1 else 16):
+                    raise PyReject("address length")
+                rd = ("a", bytes(b[off:end]))
+            elif t in (5, 12):
+                tn, e = name(off)
+                if e != end:
+                    raise PyReject("rdlength (PTR)")
+                rd = ("p", tn)
+            elif t == 16:
+                rd = ("t", bytes(b[off:end]))
+            elif t == 33:
+                if rl < 7:
+                    raise PyReject("short SRV")
+                p, w, port = struct.unpack(">HHH", b[off:off + 6])
+                tn, e = name(off + 6)
+                if e != end:
+                    raise PyReject("rdlength (SRV)")
+                rd = ("s", p, w, port, tn)
+            elif t == 13:
+                o = off
+                ss = []
+                for _i in range(2):
+                    if o >= end or o + 1 + b[o] > end:
+                        raise PyReject("HINFO")
+                    ss.append(bytes(b[o + 1:o + 1 + b[o]]))
+                    o += 1 + b[o]
+                if o != end:
+                    raise PyReject("rdlength (HINFO)")
+                rd = ("h", ss[0], ss[1])
+            elif t == 47:
+                tn, o = name(off)
+                if o > end:
+                    raise PyReject("rdlength (NSEC)")
+                types = []
+                while o < end:
+                    if o + 2 > end:
+                        raise PyReject("NSEC window")
+                    w, ln = b[o], b[o + 1]
+                    if ln < 1 or ln > 32 or o + 2 + ln > end:
+                        raise PyReject("NSEC bitmap length")
+                    for i in range(ln):
+                        by = b[o + 2 + i]
+                        for bit in range(8):
+                            if by & (0x80 >> bit):
+                                types.append(w * 256 + i * 8 + bit)
+                    o += 2 + ln
+                rd = ("n", tn, tuple(types))
+            else:
+                rd = ("o", bytes(b[off:end]))
+            off = end
+            s.append(("r", nm, t, c, ttl, rd))
+        secs.append(s)
+    if off != n:
+        raise PyReject("%d trailing octets" % (n - off))
+    return id_, flags, qs, secs[0], secs[1], secs[2], longest[0]
+
+
 def boundary_seek(gm, rng):
     """nudge one TXT payload so that a packet lands on the 1460 / 8966 boundary (±2)"""
     kind, pk = impl_packets(gm)
@@ -67,74 +254,109 @@ def boundary_seek(gm, rng):
     delta = tgt - L + rng.choice([-2, -1, 0, 0, 1, 2])
     n = len(e.rd[0]) + delta
     if 0 <= n <= 9000:
-        e.rd = (bytes(rng.randrange(256) for _ in range(n)),)
+        e.rd = (rng.randbytes(n),)
     return gm
 
 
-def predicates(res, gm, pk, strict_lines, prop, text_lines=None):
-    """the property's own sentences on the implementation's packets. Returns (sig, what) or None"""
-    inq = gm.in_quantifier()
-    if not inq:
-        return None
+def predicates(res, gm, pk, strict_lines, prop, case=None, text_lines=None):
+    """the property's own sentences on the implementation's packets: -> list of (sig, what), every predicate that fails
+    (a known finding about one datagram must not stop the judgement of the rest of the message)"""
+    if not gm.in_quantifier():
+        res.count("oracle:skipped-outside-quantifier")
+        return []
+    res.count("oracle:judged")
+    out = []
     maxlab = gm.max_label()
-    # decode every packet with the independent decoder and with the library
+    long_in = gm.max_wire_len() > 255  # the *input* holds a name of more than 255 wire octets (the class of finding D21)
+    # --- decode every datagram with the two independent strict decoders
     dec = []
-    for p, sl in zip(pk, strict_lines):
+    d21 = 0
+    for j, p in enumerate(pk):
         if len(p) > 8966:
-            return ("%s:oversized-packet" % prop, "a datagram of %d bytes was produced" % len(p))
-        if sl is None:
-            continue
-        if not sl.startswith("ok "):
+            return out + [("%s:oversized-packet" % prop, "a datagram of %d bytes was produced" % len(p))]
+        sl = strict_lines[j] if j < len(strict_lines) else None
+        lean_ok = None if sl is None else sl.startswith("ok ")
+        try:
+            py = py_decode(p)
+        except PyReject as ex:
+            py, why = None, str(ex)
+        if py is None:
+            if lean_ok:
+                res.disagree("decoders", case, "python strict decoder rejects datagram %d: %s" % (j, why), sl[:200])
             if maxlab > 63:
-                return ("%s:label-%s-encodes-undecodable" % (prop, "64" if maxlab == 64 else "gt64"),
-                        "a %d-byte label was encoded instead of being rejected; the strict decoder rejects the datagram" % maxlab)
-            if gm.max_wire_len() > 255:
-                if prop != "C01":
-                    return None  # C14 is about sizes and accounting; over-long names are C01's finding D21
-                return ("C01:name-over-255-octets-emitted",
+                return out + [("%s:label-%s-encodes-undecodable" % (prop, "64" if maxlab == 64 else "gt64"),
+                               "a %d-byte label was encoded instead of being rejected; no RFC 1035 decoder reads the datagram (%s)" % (maxlab, why))]
+            return out + [("%s:strict-decoder-rejects" % prop, "the independent RFC 1035 decoders reject emitted datagram %d of %d: %s" % (j + 1, len(pk), why))]
+        content = (py[0], py[1], py[2], py[3], py[4], py[5])
+        if lean_ok:
+            lw = W.parse_wmsg(sl[3:])
+            if tuple(lw) != content:
+                res.disagree("decoders", case, "python strict decoder reads datagram %d differently" % j, sl[:200])
+        if py[6] > 255:
+            # the datagram carries a name of more than 255 octets: unacceptable to an RFC 1035 decoder (and to `Wire.Strict`).
+            # This is finding D21 exactly when the *input* holds such a name; the datagram is still judged on everything else.
+            if lean_ok:
+                res.disagree("decoders", case, "python strict decoder finds a name of %d octets in datagram %d" % (py[6], j), sl[:200])
+            if not long_in:
+                return out + [("%s:strict-decoder-rejects" % prop, "emitted datagram %d carries a name of %d octets although no name handed to the builder exceeds 255" % (j + 1, py[6]))]
+            d21 += 1
+        elif lean_ok is False:
+            res.disagree("decoders", case, "python strict decoder accepts datagram %d (longest name %d octets)" % (j, py[6]), sl[:200])
+        dec.append(content)
+    if d21:
+        res.count("oracle:datagrams-with-name-over-255-octets", d21)
+        if prop == "C01":
+            # C14 is about sizes and accounting; over-long names are C01's finding D21
+            out.append(("C01:name-over-255-octets-emitted",
                         "a name of %d wire octets (<= 253 characters of non-ASCII text) was neither rejected nor can any RFC 1035 "
-                        "decoder recover it: the builder never checks the total encoded length of a name" % gm.max_wire_len())
-            return ("%s:strict-decoder-rejects" % prop, "the independent RFC 1035 decoder rejects an emitted datagram")
-        dec.append(W.parse_wmsg(sl[3:]))
-    if strict_lines and strict_lines[0] is not None:
-        exq, exan, exau, exad = gm.expect()
-        gq = [x for d in dec for x in d[2]]
-        gan = [x for d in dec for x in d[3]]
-        gau = [x for d in dec for x in d[4]]
-        gad = [x for d in dec for x in d[5]]
-        if (gq, gan, gau, gad) != (exq, exan, exau, exad):
-            which = [n for n, a, b in (("questions", gq, exq), ("answers", gan, exan), ("authorities", gau, exau), ("additionals", gad, exad)) if a != b]
-            lost = sum(len(b) - len(a) for n, a, b in (("q", gq, exq), ("an", gan, exan), ("au", gau, exau), ("ad", gad, exad)))
-            return ("%s:roundtrip-strict:%s:%s" % (prop, ",".join(which), "count" if lost else "content"),
-                    "decoding the emitted datagrams with the strict decoder does not give back the %s handed to the builder" % "/".join(which))
-        # the same on the *strings*: the strict decoder's labels read back as _read_name reads them (model: textOfLabels)
-        if text_lines and all(tl is not None and tl.startswith("ok ") for tl in text_lines):
-            tdec = [W.parse_wmsg(tl[3:], text=True) for tl in text_lines]
-            tq = [x for d in tdec for x in d[2]]
-            tsec = [[x for d in tdec for x in d[i]] for i in (3, 4, 5)]
-            txq, txan, txau, txad = gm.expect_text()
-            res.count("text:strict-names-read-as-text-compared")
-            if (tq, tsec[0], tsec[1], tsec[2]) != (txq, txan, txau, txad):
-                which = [n for n, a, b in (("questions", tq, txq), ("answers", tsec[0], txan), ("authorities", tsec[1], txau), ("additionals", tsec[2], txad)) if a != b]
-                return ("%s:roundtrip-strict-text:%s" % (prop, ",".join(which)),
-                        "the names the strict decoder recovers, read as text, are not the strings handed to the builder (%s)" % "/".join(which))
-        # header flags / id / TC
-        want_id = 0 if gm.multicast else gm.id
-        is_query = (gm.flags & 0x8000) == 0
-        for i, d in enumerate(dec):
-            last = i == len(dec) - 1
-            if d[0] != want_id:
-                return ("%s:id" % prop, "message id %d transmitted as %d" % (want_id, d[0]))
-            want_flags = gm.flags | (0x0200 if (is_query and not last) else 0)
-            if d[1] != want_flags:
-                return ("%s:tc-flag:%s" % (prop, "query" if is_query else "response"), "flags %#x on packet %d of %d, expected %#x" % (d[1], i + 1, len(dec), want_flags))
-        # size rule
-        for p, d in zip(pk, dec):
-            n = len(d[2]) + len(d[3]) + len(d[4]) + len(d[5])
-            if len(p) > 1460 and n != 1:
-                return ("%s:over-1460-with-%d-entries" % (prop, n), "a %d-byte datagram carries %d entries" % (len(p), n))
-    # the library's own decoder
+                        "decoder recover it: the builder never checks the total encoded length of a name" % gm.max_wire_len()))
+    # --- round trip, per section, in order
     exq, exan, exau, exad = gm.expect()
+    gq = [x for d in dec for x in d[2]]
+    gan = [x for d in dec for x in d[3]]
+    gau = [x for d in dec for x in d[4]]
+    gad = [x for d in dec for x in d[5]]
+    if (gq, gan, gau, gad) != (exq, exan, exau, exad):
+        which = [n for n, a, b in (("questions", gq, exq), ("answers", gan, exan), ("authorities", gau, exau), ("additionals", gad, exad)) if a != b]
+        lost = sum(len(b) - len(a) for n, a, b in (("q", gq, exq), ("an", gan, exan), ("au", gau, exau), ("ad", gad, exad)))
+        out.append(("%s:roundtrip-strict:%s:%s" % (prop, ",".join(which), "count" if lost else "content"),
+                    "decoding the emitted datagrams with the strict decoder does not give back the %s handed to the builder" % "/".join(which)))
+    # --- the same on the *strings*: the strict decoder's labels read back as _read_name reads them (model: textOfLabels)
+    if text_lines and all(tl is not None and tl.startswith("ok ") for tl in text_lines):
+        tdec = [W.parse_wmsg(tl[3:], text=True) for tl in text_lines]
+        tq = [x for d in tdec for x in d[2]]
+        tsec = [[x for d in tdec for x in d[i]] for i in (3, 4, 5)]
+        txq, txan, txau, txad = gm.expect_text()
+        res.count("text:strict-names-read-as-text-compared")
+        if (tq, tsec[0], tsec[1], tsec[2]) != (txq, txan, txau, txad):
+            which = [n for n, a, b in (("questions", tq, txq), ("answers", tsec[0], txan), ("authorities", tsec[1], txau), ("additionals", tsec[2], txad)) if a != b]
+            out.append(("%s:roundtrip-strict-text:%s" % (prop, ",".join(which)),
+                        "the names the strict decoder recovers, read as text, are not the strings handed to the builder (%s)" % "/".join(which)))
+    elif text_lines:
+        res.count("text:strict-names-read-as-text-skipped (a datagram the Lean strict decoder rejects: D21)")
+    # --- header: id, TC bit, the other flag bits
+    want_id = 0 if gm.multicast else gm.id
+    is_query = (gm.flags & 0x8000) == 0
+    for i, d in enumerate(dec):
+        last = i == len(dec) - 1
+        if d[0] != want_id:
+            out.append(("%s:id" % prop, "message id %d transmitted as %d" % (want_id, d[0])))
+            break
+        want_flags = gm.flags | (0x0200 if (is_query and not last) else 0)
+        if (d[1] & 0x0200) != (want_flags & 0x0200):
+            out.append(("%s:tc-flag:%s" % (prop, "query" if is_query else "response"),
+                        "flags %#x on packet %d of %d, expected %#x (TC bit)" % (d[1], i + 1, len(dec), want_flags)))
+            break
+        if d[1] != want_flags:
+            out.append(("%s:flags-word" % prop, "flags %#x on packet %d of %d, expected %#x" % (d[1], i + 1, len(dec), want_flags)))
+            break
+    # --- size rule
+    for p, d in zip(pk, dec):
+        n = len(d[2]) + len(d[3]) + len(d[4]) + len(d[5])
+        if len(p) > 1460 and n != 1:
+            out.append(("%s:over-1460-with-%d-entries" % (prop, n), "a %d-byte datagram carries %d entries" % (len(p), n)))
+            break
+    # --- the library's own decoder
     txq, txan, txau, txad = gm.expect_text()
     lq, lan, lau, lad = [], [], [], []
     ltq, ltan, ltau, ltad = [], [], [], []
@@ -142,17 +364,15 @@ def predicates(res, gm, pk, strict_lines, prop, text_lines=None):
         d = lib_decode(p)
         if d is None or d[0] == "exc":
             if maxlab > 63:
-                return ("%s:label-%s-encodes-undecodable" % (prop, "64" if maxlab == 64 else "gt64"), "the library cannot decode its own datagram (label of %d bytes)" % maxlab)
-            if gm.max_wire_len() > 255 and prop != "C01":
-                return None
-            return ("%s:lib-decoder-rejects" % prop, "DNSIncoming marks an emitted datagram invalid: %r" % (d,))
+                return out + [("%s:label-%s-encodes-undecodable" % (prop, "64" if maxlab == 64 else "gt64"), "the library cannot decode its own datagram (label of %d bytes)" % maxlab)]
+            return out + [("%s:lib-decoder-rejects" % prop, "DNSIncoming marks an emitted datagram invalid: %r" % (d,))]
         lq += d[2]
         # the library returns answers+authorities+additionals of a packet as one list in wire order: split it by the
         # header counts so that order and section membership are compared, not only the multiset
         nq_, na, nu, nd = d[4]
         recs = d[3]
         if len(recs) != na + nu + nd or len(d[2]) != nq_:
-            return ("%s:roundtrip-lib:counts" % prop, "DNSIncoming returns %d questions / %d records for header counts %r" % (len(d[2]), len(recs), d[4]))
+            return out + [("%s:roundtrip-lib:counts" % prop, "DNSIncoming returns %d questions / %d records for header counts %r" % (len(d[2]), len(recs), d[4]))]
         lan += recs[:na]
         lau += recs[na:na + nu]
         lad += recs[na + nu:]
@@ -164,13 +384,15 @@ def predicates(res, gm, pk, strict_lines, prop, text_lines=None):
     res.count("text:library-names-compared-as-str")
     for nm, got, want in (("questions", ltq, txq), ("answers", ltan, txan), ("authorities", ltau, txau), ("additionals", ltad, txad)):
         if list(map(repr, got)) != list(map(repr, want)):
-            return ("%s:roundtrip-lib-text:%s" % (prop, nm), "DNSIncoming does not give back the %s with the names spelled as handed to the builder" % nm)
+            out.append(("%s:roundtrip-lib-text:%s" % (prop, nm), "DNSIncoming does not give back the %s with the names spelled as handed to the builder" % nm))
+            break
     if lq != exq:
-        return ("%s:roundtrip-lib:questions" % prop, "DNSIncoming does not give back the questions")
+        out.append(("%s:roundtrip-lib:questions" % prop, "DNSIncoming does not give back the questions"))
     for nm, got, want in (("answers", lan, exan), ("authorities", lau, exau), ("additionals", lad, exad)):
         if list(map(repr, got)) != list(map(repr, want)):
-            return ("%s:roundtrip-lib:%s" % (prop, nm), "DNSIncoming does not give back the %s, in order" % nm)
-    return None
+            out.append(("%s:roundtrip-lib:%s" % (prop, nm), "DNSIncoming does not give back the %s, in order" % nm))
+            break
+    return out
 
 
 def run_prop(ctx, prop, size_bias=None):
@@ -201,7 +423,18 @@ def run_prop(ctx, prop, size_bias=None):
                 m.qs.append(W.Ent("q", "a" * L + "." + rng.choice(["_http._tcp.local.", "local."]), 12, 1, False))
         cases.append((kind, m))
     # implementation
-    impl = [impl_packets(m) for _, m in cases]
+    impl = []
+    sent = []   # the send path (C14: `Zeroconf.async_send` is an anchored mechanism): what leaves for the datagrams the builder made
+    again = []  # a rejected message, asked again
+    for _, m in cases:
+        keep = {}
+        ik, iv = r = impl_packets(m, keep)
+        o = keep.get("out")  # the library object is dropped at once: a thorough run holds > 100 000 messages
+        impl.append(r)
+        sent.append(impl_send(o) if (SEND_PATH and prop == "C14" and ik == "ok" and o is not None) else None)
+        again.append(impl_again(o) if (RETRY_CHECK and prop == "C01" and ik == "err" and iv == "NamePartTooLongException" and o is not None
+                                       and m.in_quantifier()) else None)
+        del o, keep
     lines = []
     idx = []
     for k, ((kind, m), (ik, iv)) in enumerate(zip(cases, impl)):
@@ -214,6 +447,9 @@ def run_prop(ctx, prop, size_bias=None):
                     idx.append(("strict", k, j))
                     lines.append("stricttext " + p.hex())
                     idx.append(("stricttext", k, j))
+            if sent[k] is not None:
+                lines.append("sendlens " + (" ".join(str(len(p)) for p in iv) or "-"))
+                idx.append(("send", k, None))
     model = None
     if ctx["driver_ok"]:
         try:
@@ -222,18 +458,24 @@ def run_prop(ctx, prop, size_bias=None):
             res.notes.append("driver unavailable: %s" % ex)
     enc_out = {}
     strict_out = {}
+    send_out = {}
     text_out = {}
     if model is not None:
         for (what, k, j), out in zip(idx, model):
             if what == "enc":
                 enc_out[k] = out
+            elif what == "send":
+                send_out[k] = out
             elif what == "strict":
                 strict_out[(k, j)] = out
             else:
                 text_out[(k, j)] = out
-    res.rule = ("names are given to the model as text (it splits and encodes); seeded messages from a vocabulary of names with shared suffixes / case variants / non-ASCII incl. U+FFFD / dotted labels / no trailing dot / labels of 62-65 bytes, all 7 record "
-                "kinds, classes incl. 256/0x0101/0x7FFF, flags incl. a caller-set TC, TTL incl. 0 and 2^32-1, remaining-TTL answers around expiry, 0-400 entries per section (authorities 0-300, any kind), TXT payloads steered onto the 1460 and 8966 "
-                "boundaries (second pass using the implementation's own packet length), plus a malformed stream (labels 64-300, strings 256+, bad NSEC, the names '', '.', '..', 'a..b', '.a', 'a.b..'), plus sequences of write_name calls with the names table compared; "
+    res.rule = ("names are given to the model as text (it splits and encodes); seeded messages from a vocabulary of names with shared suffixes / case variants / non-ASCII incl. U+FFFD and 4-byte UTF-8 / dotted labels / no trailing dot / labels of 1-63 bytes "
+                "(62-65 emphasised), names up to 253 characters / 255 octets, all 7 record kinds, 16-bit question types, 15-bit classes, 16-bit flags, SRV fields 0-65535, "
+                "NSEC types 0-255 (up to 40 per record), TTL incl. 0 and 2^32-1, remaining-TTL answers around expiry (and `now` before `created`), 0-400 entries per section "
+                "(authorities 0-300, any kind), TXT payloads steered onto the 1460 and 8966 boundaries (second pass using the implementation's own packet length), names of "
+                "more than 255 octets (finding D21) in a minority of messages, plus a malformed stream (labels 64-300, strings 256+, bad NSEC, the names '', '.', '..', 'a..b', '.a', 'a.b..'), plus sequences of write_name calls with the names table compared; every datagram is decoded by two "
+                "independent strict decoders (Lean and Python) and by the library; C14 also pushes every message through Zeroconf.async_send with a recording transport; "
                 "non-trivial = distinct (size class, #packets, kinds present, multicast, query, outcome) signatures")
     for k, ((kind, m), (ik, iv)) in enumerate(zip(cases, impl)):
         res.evaluations += 1
@@ -246,6 +488,8 @@ def run_prop(ctx, prop, size_bias=None):
         if ik == "ok":
             for p in iv:
                 res.count("size:" + ("<=1460" if len(p) <= 1460 else "<=8966" if len(p) <= 8966 else ">8966"))
+                if len(p) in (1459, 1460, 8965, 8966):
+                    res.count("size:exactly-%d" % len(p))
         if k < 2:
             res.sample({"kind": kind, "msg": m.tok()[:400], "packets": [p.hex()[:120] for p in iv] if ik == "ok" else iv})
         case = {"msg": m.tok(), "kind": kind}
@@ -261,6 +505,8 @@ def run_prop(ctx, prop, size_bias=None):
             io = ("ok " + " ".join(C.hx(p) for p in iv)) if ik == "ok" else "err " + iv
             if io.strip() != mo.strip():
                 res.disagree("encoder", case, io[:300], mo[:300])
+        else:
+            res.count("correspondence:skipped-no-driver")
         # O
         if ik == "err":
             if m.in_quantifier() and iv != "NamePartTooLongException":
@@ -269,12 +515,35 @@ def run_prop(ctx, prop, size_bias=None):
                 res.violate("%s:builder-does-not-terminate" % prop, "packets() keeps emitting datagrams without consuming entries", case)
             elif m.in_quantifier() and iv == "NamePartTooLongException" and m.max_label() <= 63:
                 res.violate("%s:rejects-short-labels" % prop, "NamePartTooLongException although no label exceeds 63 bytes", case)
+            elif not m.in_quantifier():
+                res.count("oracle:skipped-outside-quantifier")
+            if again[k] is not None and again[k] != ("err", "NamePartTooLongException"):
+                # the message was rejected; asked again, the same builder must not hand out datagrams for it
+                ak, av = again[k]
+                res.violate("%s:packets-again-after-rejection" % prop,
+                            "packets() raised NamePartTooLongException; called again on the same object it %s" %
+                            ("returns %d datagram(s) (%s...) that do not carry the rejected entry" % (len(av), av[0].hex()[:80] if av else "") if ak == "ok" else "raises %s" % av), case)
             continue
         sl = [strict_out.get((k, j)) for j in range(len(iv))] if model is not None else [None] * len(iv)
         tl = [text_out.get((k, j)) for j in range(len(iv))] if model is not None else None
-        v = predicates(res, m, iv, sl, prop, tl)
-        if v:
-            res.violate(v[0], v[1], case)
+        for sig, what in predicates(res, m, iv, sl, prop, case, tl):
+            res.violate(sig, what, case)
+        # the send path: every datagram the builder made (all are <= 8966 here) leaves, once, in order
+        if sent[k] is not None:
+            sk, sv = sent[k]
+            if model is not None and k in send_out:
+                io = str(len(sv)) if sk == "ok" else "err " + sv
+                if io != send_out[k].strip():
+                    res.disagree("send", case, io, send_out[k][:100])
+            if m.in_quantifier():
+                if sk != "ok":
+                    res.violate("%s:send-path-raises:%s" % (prop, sv), "Zeroconf.async_send raised %s for a message the builder turned into datagrams" % sv, case)
+                elif sv != iv:
+                    first = next((j for j, p in enumerate(iv) if j >= len(sv) or sv[j] != p), len(iv))
+                    size = len(iv[first]) if first < len(iv) else -1
+                    res.violate("%s:send-path-drops-datagram-of-%s-bytes" % (prop, "exactly-8966" if size == 8966 else "at-most-8965" if 0 <= size else "no"),
+                                "the builder made datagrams of %s bytes, async_send let %s bytes leave: datagram %d (%d bytes, within the 8966 limit) and everything "
+                                "behind it is not sent" % ([len(p) for p in iv][:8], [len(p) for p in sv][:8], first + 1, size), case)
     # the text layer on its own: sequences of write_name(str) on one packet, bytes and the str-keyed names table
     T.write_stream(res, rng, ctx["tier"], model is not None, g.name)
     return res
